@@ -1,5 +1,5 @@
 """C17 Limits reject exactly when exceeded; depth means nesting, not length (DESIGN.md §5)."""
-import itertools
+import random, itertools
 from fractions import Fraction
 from vlib.engine import *  # noqa
 from vlib.harness import sample_quota
@@ -9,7 +9,7 @@ LEVEL = "model_checking"
 ANCHOR_PREFIXES = ["loop_el::", "context::TransformerContext::inc_depth", "context::TransformerContext::dec_depth", "context::", "transform::", "expression::eval_condition", "functions::"]
 BOUNDS = ("loop-limit L in 0..3 with while / until loops whose trip count is governed by a symbolic integer bound in [-2,8] (every trip count 0..L+2 is a solver-found path), bodies of 1-2 elements, "
           "loops at top level and inside <g>; count loops and <for> loops with concrete trip counts 0..L+2 (ground); depth-limit d+2 (d = the template's nesting depth) with a while loop emitting "
-          "N <= 6 sibling elements (N symbolic) of kinds {text with content, defs, nested svg, namespaced embedded svg, linearGradient, g, rect, reuse, use, a, marker, clipPath, comment, style, path, polyline}; documents with 1-8 forward-referencing (retried) elements at nesting depth D with depth-limit D and D+1; nesting depth D-1/D/D+1 and var-limit boundaries (ASCII exact; multi-byte characters: Ok or Err, never a crash) as ground queries")
+          "N <= 6 sibling elements (N symbolic) of kinds {text with content, defs, nested svg, namespaced embedded svg, linearGradient, g, rect, reuse, use, a, marker, clipPath, comment, style, path, polyline}; documents with 1-8 forward-referencing (retried) elements at nesting depth D with depth-limit D and D+1; nesting depth D-1/D/D+1 and var-limit boundaries (ASCII exact; multi-byte characters: Ok or Err, never a crash) as ground queries; seeded random fragments (quick 150, thorough 2500, each at limit need-1 / need / need+1): element trees over {g, loop, for, if true/false, reuse of a shape / group template, use, specs, shapes, var, config, defaults} against a reference nesting-depth model, and nests of count / while / until / for loops with concrete pass counts against a per-loop pass model; limits nested in <if> / <loop> / <for>, changed by a <config> inside a running loop or later in the document; values copied from group / reuse attributes and <for> items")
 ASSUMPTIONS = ["a loop 'runs more than loop-limit iterations' when its body would be entered more than loop-limit times (test-suite: count=100 passes and count=101 fails with loop-limit=100)",
                "nesting depth counts element levels (test-suite: g>g>g>rect needs depth-limit 4); the symbolic length templates leave two levels of slack so that they do not depend on how an element's own text content is counted"]
 
@@ -25,8 +25,81 @@ KINDS = {
 DEPTH = {"text": 3, "defs": 4, "svg": 4, "gradient": 4, "g": 4, "rect": 3, "reuse": 4, "a": 4, "marker": 4, "clipPath": 4, "recttext": 3, "title": 3, "svgns": 4, "use": 3, "iffalse": 4, "iftrue": 4, "loop0": 4, "loop2": 4, "for1": 4, "var": 3, "defaults": 4, "gempty": 3, "point": 3, "shapetext": 3, "iffwd": 4, "comment": 3, "style": 3, "path": 3, "polyline": 3}
 
 
+def gen_depth_doc(gseed):
+    """a seeded random fragment; returns (markup, nesting depth of its deepest processed element) under the reference model:
+    a top-level element is at depth 1, children of <g> / <loop> / <if> bodies one deeper, an instance made by <reuse> one
+    deeper than the <reuse> (and its own children one deeper again); the body of a false <if> is never entered"""
+    rnd = random.Random(6100 + gseed)
+    deepest = [0]
+
+    def node(d, budget):
+        deepest[0] = max(deepest[0], d)
+        k = rnd.choice(["g", "g", "rect", "circle", "var", "loop", "if1", "if0", "reuse", "reuseg", "use", "shapetext", "point", "config", "defaults", "for"] + (["specs"] if d == 1 else []))
+        if budget[0] <= 0 or d >= 7:
+            k = rnd.choice(["rect", "circle", "var", "point"])
+        budget[0] -= 1
+        if k == "g":
+            return "<g>" + "".join(node(d + 1, budget) for _ in range(rnd.randint(1, 3))) + "</g>"
+        if k == "specs":
+            # content of <specs> is not rendered but it is processed: its nesting counts like any other
+            return "<specs>" + "".join(node(d + 1, budget) for _ in range(rnd.randint(1, 2))) + "</specs>"
+        if k == "loop":
+            return f'<loop count="{rnd.randint(1, 2)}">' + "".join(node(d + 1, budget) for _ in range(rnd.randint(1, 2))) + "</loop>"
+        if k == "for":
+            return '<for var="q" data="1, 2">' + node(d + 1, budget) + "</for>"
+        if k == "if1":
+            return '<if test="1">' + node(d + 1, budget) + "</if>"
+        if k == "if0":
+            return '<if test="0"><g><g><g><g><g><g><g><g><rect wh="1"/></g></g></g></g></g></g></g></g></if>'
+        if k == "reuse":
+            deepest[0] = max(deepest[0], d + 1)
+            return '<reuse href="#tr" x="[[0]]"/>'
+        if k == "reuseg":
+            deepest[0] = max(deepest[0], d + 2)
+            return '<reuse href="#tg" x="[[0]]"/>'
+        return {"rect": '<rect xy="[[0]] 0" wh="1"/>', "circle": '<circle cxy="[[0]] 1" r="1"/>', "var": '<var q="1"/>', "use": '<use href="#tr" x="[[0]]"/>',
+                "shapetext": '<rect xy="[[0]] 0" wh="5" text="a"/>', "point": '<point xy="[[0]] 0"/>', "config": '<config border="3"/>', "defaults": '<defaults><rect rx="1"/></defaults>'}[k]
+    budget = [rnd.randint(4, 12)]
+    body = "".join(node(1, budget) for _ in range(rnd.randint(1, 3)))
+    # the prelude <specs><rect id="tr"/><g id="tg"><rect/></g></specs> is itself nested 3 deep
+    return body, max(deepest[0], 3)
+
+
+def gen_loops_doc(gseed):
+    """a seeded random nest of loops with concrete pass counts; returns (markup, largest pass count of any single loop)"""
+    rnd = random.Random(7200 + gseed)
+    most = [0]
+    cnt = [0]
+
+    def loop(d):
+        n = rnd.randint(0, 4)
+        most[0] = max(most[0], n)
+        cnt[0] += 1
+        nm = f"c{cnt[0]}"
+        form = rnd.choice(["count", "count", "while", "until", "for"])
+        inner = '<rect xy="[[0]] 0" wh="1"/>' + (loop(d + 1) if d < 2 and rnd.random() < 0.5 and n > 0 else "")
+        if form == "count":
+            return f'<loop count="{n}">{inner}</loop>'
+        if form == "for":
+            if n == 0:
+                most[0] = max(most[0], 1)
+                return f'<for var="q" data="5">{inner}</for>'
+            return f'<for var="q" data="{", ".join(str(j) for j in range(n))}">{inner}</for>'
+        if form == "while":
+            return f'<var {nm}="0"/><loop while="lt(${nm}, {n})">{inner}<var {nm}="{{{{${nm} + 1}}}}"/></loop>'
+        m = max(n, 1)
+        most[0] = max(most[0], m)
+        return f'<var {nm}="0"/><loop until="ge(${nm}, {m})">{inner}<var {nm}="{{{{${nm} + 1}}}}"/></loop>'
+    body = "".join(loop(0) for _ in range(rnd.randint(1, 3)))
+    return body, most[0]
+
+
 def templates(tier, seed):
     tds = []
+    for gi in range(150 if tier == "quick" else 2500):
+        for delta in (-1, 0, 1):
+            tds.append(dict(fam="gen-depth", gseed=gi + 20000 * seed, delta=delta))
+            tds.append(dict(fam="gen-loops", gseed=gi + 20000 * seed, delta=delta))
     for L in (0, 1, 2, 3):
         for form in ("while", "until"):
             for where in ("top", "in-g", "in-if", "in-loop", "in-if-g", "in-for", "then-config"):
@@ -204,6 +277,22 @@ def build(td, wrong=False):
                 good = r.status in ("ok", "err") and (r.status == "err" or len(ch.encode()) * n <= lim or n <= lim)
             return [Obl(f"var-length-{n}-limit-{lim}", PASS if good else FAIL, ground=True, note=r.status + " " + r.docs[0]["msg"][:100])]
         return Template(f"var-limit/{lim}/{delta}/{ch}", doc, [(1, -8, 8, 0)], check, family="var-limit", role="C17/var-limit", cap=2)
+    if fam in ("gen-depth", "gen-loops"):
+        body, need = (gen_depth_doc if fam == "gen-depth" else gen_loops_doc)(td["gseed"])
+        lim = need + td["delta"]
+        if lim < 0:
+            lim, want_ok = 0, need <= 0
+        else:
+            want_ok = need <= lim
+        attr = "depth-limit" if fam == "gen-depth" else "loop-limit"
+        pre = '<specs><rect id="tr" wh="1"/><g id="tg"><rect wh="2"/></g></specs>' if fam == "gen-depth" else ""
+        # (the <config> and <specs> elements are themselves top-level elements at depth 1 / 2: below every generated document's need)
+        doc = f'<config {attr}="{lim}"/>{pre}{body}'
+
+        def check(r):
+            good = (r.status == "ok") if want_ok else (r.status == "err" and "exceeded" in r.docs[0]["msg"])
+            return [Obl(f"{attr}-{lim}-needed-{need}", PASS if good else FAIL, ground=True, note=r.status + " " + r.docs[0]["msg"][:120])]
+        return Template(f"{fam}/{td['gseed']}/{td['delta']}", doc, [(1, -8, 8, 0)], check, family=fam, role=f"C17/{fam}", cap=2)
     if fam == "var-limit-copy":
         # the limit applies to every value a <var> stores, wherever the value comes from and whether or not it changes anything
         form = td["form"]
